@@ -37,20 +37,20 @@ func (c *CacheConfig) setRestartNeededProps() {
 	c.LockShards.SetRequiresRestart()
 }
 
-func (c *CacheConfig) verify() error {
-	if c.MaxCacheSize.Read().Bytes() <= 0 {
+func (c *CacheConfig) verify(v view) error {
+	if c.MaxCacheSize.pending(v).Bytes() <= 0 {
 		return fmt.Errorf("cache.max_cache_size must be greater than 0")
 	}
-	if c.CleanupInterval.Read().Cast() <= 0 {
+	if c.CleanupInterval.pending(v).Cast() <= 0 {
 		return fmt.Errorf("cache.cleanup_interval must be greater than 0")
 	}
-	if c.Memory.MemoryBudgetPercent.Read() < 0 || c.Memory.MemoryBudgetPercent.Read() > 100 {
+	if c.Memory.MemoryBudgetPercent.pending(v) < 0 || c.Memory.MemoryBudgetPercent.pending(v) > 100 {
 		return fmt.Errorf("cache.memory.memory_budget_percent must be between 0 and 100")
 	}
-	if c.File.Dir.Read() == "" {
+	if c.File.Dir.pending(v) == "" {
 		return fmt.Errorf("cache.file.dir cannot be empty")
 	}
-	if c.Type.Read() != CacheTypeFile && c.Type.Read() != CacheTypeMemory {
+	if c.Type.pending(v) != CacheTypeFile && c.Type.pending(v) != CacheTypeMemory {
 		return fmt.Errorf("cache.type must be either 'file' or 'memory'")
 	}
 	return nil
